@@ -30,6 +30,8 @@ package dns
 //@   callsonly @C15: Name).String, binary.Write, Buffer).Len, Buffer).WriteByte, Buffer).Write
 //@   atcall binary.Write before: assert @C15: defined(hit) && hit == nameText(name[i:]) && hit in old(builder.nameCache) || hit in builder.nameCache
 //@   atcall Name).String#1 after: snap hit := res
+// ... and the offset fits the 14 bits a compression pointer has (a longer offset would be cut and point elsewhere)
+//@   atcall binary.Write before: assert @C15: 0 <= ptr && ptr < 16384
 //@   ensures @C11: true
 //@   assigns obj(builder), mapof(builder.nameCache), bufStr
 //@   checks safety
